@@ -1,9 +1,52 @@
 (* Translation covariance of the a posteriori ray tracers (gen/Ray2d.v, gen/Ray3d.v; sources
-   /repo/fteikpy/_fteik/_ray2d.py, _ray3d.py), exact real arithmetic T := R. *)
+   /repo/fteikpy/_fteik/_ray2d.py, _ray3d.py), exact real arithmetic T := R (instance NumR):
+
+     translating the model origin (every node of every axis), the source and the end point by one
+     common vector translates every vertex of the ray by that vector; nothing else changes.
+
+   Notation: shift_axis o x (TranslateR.v) is the axis with nodes o + x_k; vsh [a;b] p is the point
+   p + (a,b); shray o k r is the ray buffer r with o added to its rows 0..k-1 (other rows untouched);
+   addvec o r adds o to every row of the polyline r.
+
+   Hypotheses (those of interp2d_translate / interp3d_translate, nothing more): every axis is an
+   interpolation axis (SSR.axis: a 1-D array of n >= 2 strictly ascending nodes) and each gradient
+   grid has the shape given by the axes.  Everything else is arbitrary: end point (inside or outside
+   the hull), source, stepsize (also <= 0), max_step (also <= 0), honor_grid (both modes), fuel, and
+   the shift.  All equalities are equalities of reals / of arrays.
+
+   2D (hypotheses axis z nz, axis x nx, shape zgrad = shape xgrad = [nz; nx]):
+     ray2d_core_translate        (T1) core on (z+a, x+b, end+(a,b), src+(a,b)) = image of the core on the
+                                 original data: same count c (incl. -1 and -2) and ray' = shray [a;b] k ray
+                                 with k = c+1 when c >= 0, k = 0 when c = -1; Raise/OutOfFuel coincide
+     ray2d_core_translate_rows   (T1, as asked) same count; rows 0..c of ray' are the rows of ray plus (a,b);
+                                 the rows c+1.. (never written) are identical; same shape
+     ray2d_core_translate_fuel   the two runs exhaust the same fuels
+     ray2d_translate             (T2) wrapper _ray2d: Ok (shray [a;b] (c+1) ray, c) / same exception
+     ray2d_1_translate           (T2) entry point ray2d, one end point: returned polyline = addvec [a;b] of the
+                                 original polyline (equality of arrays) / same exception
+     ray2d_1_translate_vertices  the same vertex by vertex
+   3D (axis z nz, axis x nx, axis y ny, the three gradient grids of shape [nz; nx; ny]):
+     ray3d_core_translate, ray3d_core_translate_rows, ray3d_core_translate_fuel   (T3)
+     ray3d_translate, ray3d_1_translate, ray3d_1_translate_vertices               (T4)
+   Ingredients: shrink_vsh (the shrink factor only sees pcur-lower, pcur-upper: invariant for any common
+     shift of pcur/lower/upper, any dimension), clamp_shift, cell_lo_shift, cell_up_shift (cell boundaries
+     after searchsorted, incl. the comparison pcur == z[i]), magnet*_shift (grid magnetism),
+     nfree_max*_shift, hull*_shift, tcond*_shift (stopping test).
+   Examples: ray2d_translate_nonvacuous / ray3d_translate_nonvacuous (the hypotheses are satisfiable and
+     a three-vertex ray is translated, for every shift); translate_needs_nonempty_axis (on an EMPTY
+     axis the statement is false in the model: out-of-range reads return the default 0, which is
+     not translated - so some hypothesis on the axes is necessary).
+
+   Method: the loop body of each generated core is restated in modular form (gbody2 / gbody3) and
+   proved equal to the generated one by normalisation (body2_spec / body3_spec, any numeric type; the
+   loop itself is the one extracted in RayBudget.v).  The translated run is then the image of the
+   original run under the state map SH (same count, nfree, delta; pcur, lower, upper translated; the
+   stored rows translated), iteration by iteration (while_fuel_commute, gbody*_shift). *)
 From Coq Require Import ZArith List Bool Reals Lra Lia.
 From FT.lib Require Import Num Arr NumArr ArrLemmas.
 From FT.gen Require Import Common Interp2d Interp3d FteikCommon Ray2d Ray3d.
 From FT.proofs Require Import SSR InterpR Interp3R TranslateR Ray2dProofs Ray3dProofs RayBudget.
+From FT.proofs Require RayStep.
 Import ListNotations.
 Open Scope Z_scope.
 
@@ -1001,3 +1044,653 @@ Proof.
   rewrite (dim2_0 _ _ _ Sp). intros i Hi.
   split; [apply (get_addvec [a; b] (c + 1) i 0 _ Sp Lp)|apply (get_addvec [a; b] (c + 1) i 1 _ Sp Lp)]; simpl; lia.
 Qed.
+
+(* ========================================================================================== *)
+(* 3D                                                                                          *)
+(* ========================================================================================== *)
+(* 7. the loop of _ray3d_core in modular form (any numeric type), equal to the generated one   *)
+Section Spec3.
+Context {T : Type} `{Num T}.
+Variables (z x y zgrad xgrad ygrad : arr T) (zend xend yend zsrc xsrc ysrc stepsize : T) (M : Z).
+Local Notation St := (@St2 T).
+
+Definition tcond3 (s : St) : bool :=
+  ngeb (Common.dist3d zsrc xsrc ysrc (get (nofZ 0) (s_pcur s) [0]) (get (nofZ 0) (s_pcur s) [1])
+                      (get (nofZ 0) (s_pcur s) [2])) stepsize.
+Definition g3z (p : arr T) : T := Interp3d.interp3d_1 z x y zgrad p nnan.
+Definition g3x (p : arr T) : T := Interp3d.interp3d_1 z x y xgrad p nnan.
+Definition g3y (p : arr T) : T := Interp3d.interp3d_1 z x y ygrad p nnan.
+Definition g3n (p : arr T) : T := Common.norm3d (g3z p) (g3x p) (g3y p).
+Definition ndelta3 (d p : arr T) : arr T :=
+  set (set (set d [0] (nmul (nmul stepsize (g3z p)) (ndiv (nofZ 1) (g3n p))))
+           [1] (nmul (nmul stepsize (g3x p)) (ndiv (nofZ 1) (g3n p))))
+      [2] (nmul (nmul stepsize (g3y p)) (ndiv (nofZ 1) (g3n p))).
+Definition clamp3 (p1 : arr T) : arr T :=
+  let p2 := set p1 [0] (clamp z (get (nofZ 0) p1 [0])) in
+  let p3 := set p2 [1] (clamp x (get (nofZ 0) p2 [1])) in
+  set p3 [2] (clamp y (get (nofZ 0) p3 [2])).
+Definition cells_lo3 (l p : arr T) : arr T :=
+  set (set (set l [0] (cell_lo z (get (nofZ 0) p [0]))) [1] (cell_lo x (get (nofZ 0) p [1])))
+      [2] (cell_lo y (get (nofZ 0) p [2])).
+Definition cells_up3 (u p : arr T) : arr T :=
+  set (set (set u [0] (cell_up z (get (nofZ 0) p [0]))) [1] (cell_up x (get (nofZ 0) p [1])))
+      [2] (cell_up y (get (nofZ 0) p [2])).
+
+Definition gbody3 (hg : bool) (s : St) : ctl St :=
+  if btest M (nfree_max3 z x y stepsize) s then Brk s
+  else if ngtb (g3n (s_pcur s)) (nofZ 0) then
+    let d' := ndelta3 (s_delta s) (s_pcur s) in
+    if hg then
+      let fac := FteikCommon.shrink (s_pcur s) d' (s_lower s) (s_upper s) in
+      let p3 := clamp3 (amap2 nsub (s_pcur s) (amap (fun e => nmul fac e) d')) in
+      if nltb fac (nofZ 1) then
+        let p4 := magnet 3 (s_lower s) (s_upper s) p3 in
+        let s' := (s_count s + 1, d', cells_lo3 (s_lower s) p4, 0, p4,
+                   set_sub (s_ray s) [s_count s] p4, cells_up3 (s_upper s) p4) in
+        if (cidx z (get (nofZ 0) p4 [0]) =? cidx z zsrc) && (cidx x (get (nofZ 0) p4 [1]) =? cidx x xsrc) &&
+           (cidx y (get (nofZ 0) p4 [2]) =? cidx y ysrc)
+        then Brk s' else Next s'
+      else Next (s_count s, d', s_lower s, s_nfree s + 1, p3, s_ray s, s_upper s)
+    else
+      let p3 := clamp3 (amap2 nsub (s_pcur s) d') in
+      Next (s_count s + 1, d', s_lower s, s_nfree s, p3, set_sub (s_ray s) [s_count s] p3, s_upper s)
+  else Brk s.
+
+Definition ginit3 (hg : bool) : St :=
+  (1, full [3] (nofZ 0),
+   (if hg then of_list [cell_lo z zend; cell_lo x xend; cell_lo y yend] else mkarr [0] []), 0,
+   of_list [zend; xend; yend], set_sub (full [M; 3] (nofZ 0)) [0] (of_list [zend; xend; yend]),
+   (if hg then of_list [cell_up z zend; cell_up x xend; cell_up y yend] else mkarr [0] [])).
+
+Lemma cond3_spec hg s :
+  cond3 z x y zgrad xgrad ygrad zend xend yend zsrc xsrc ysrc stepsize hg s = tcond3 s.
+Proof. destruct s as [[[[[[c d] l] n] p] r] u]. reflexivity. Qed.
+
+Lemma init3_spec hg : init3 z x y zgrad xgrad ygrad zend xend yend zsrc xsrc ysrc stepsize hg M = ginit3 hg.
+Proof. destruct hg; reflexivity. Qed.
+
+Lemma body3_spec hg s :
+  body3 z x y zgrad xgrad ygrad zend xend yend zsrc xsrc ysrc stepsize hg M s = gbody3 hg s.
+Proof.
+  destruct s as [[[[[[c d] l] n] p] r] u].
+  destruct hg;
+    cbv beta zeta iota delta [body3 loop3 fst snd u_ray3d_core_v_p1 gbody3 btest nfree_max3
+                              s_count s_delta s_lower s_nfree s_pcur s_ray s_upper
+                              g3n g3z g3x g3y ndelta3 clamp3 clamp cells_lo3 cells_up3 cell_lo cell_up cidx
+                              magnet magnet1];
+    reflexivity.
+Qed.
+End Spec3.
+
+(* 8. 3D: one loop iteration commutes with the translation *)
+Section Shift3.
+Local Open Scope R_scope.
+Variables (a b c : R) (z x y zgrad xgrad ygrad : arr R) (nz nx ny : Z).
+Hypothesis Az : axis z nz.
+Hypothesis Ax : axis x nx.
+Hypothesis Ay : axis y ny.
+Hypothesis Sz : shape zgrad = [nz; nx; ny].
+Hypothesis Sx : shape xgrad = [nz; nx; ny].
+Hypothesis Sy : shape ygrad = [nz; nx; ny].
+Local Notation o := [a; b; c].
+Local Notation z' := (shift_axis a z).
+Local Notation x' := (shift_axis b x).
+Local Notation y' := (shift_axis c y).
+Local Notation r0 := (@nofZ R NumR 0%Z).
+
+Lemma get_vsh3 p : vec3 p ->
+  get r0 (vsh o p) [0%Z] = a + get r0 p [0%Z] /\ get r0 (vsh o p) [1%Z] = b + get r0 p [1%Z] /\
+  get r0 (vsh o p) [2%Z] = c + get r0 p [2%Z].
+Proof.
+  intros [S L]. destruct p as [sh l]. simpl in S, L. subst sh.
+  destruct l as [|p0 [|p1 [|p2 [|]]]]; try discriminate. repeat split; reflexivity.
+Qed.
+
+Lemma set_vsh3 p v : vec3 p ->
+  set (vsh o p) [0%Z] (a + v) = vsh o (set p [0%Z] v) /\ set (vsh o p) [1%Z] (b + v) = vsh o (set p [1%Z] v) /\
+  set (vsh o p) [2%Z] (c + v) = vsh o (set p [2%Z] v).
+Proof.
+  intros [S L]. destruct p as [sh l]. simpl in S, L. subst sh.
+  destruct l as [|p0 [|p1 [|p2 [|]]]]; try discriminate. repeat split; reflexivity.
+Qed.
+
+Lemma vec3_vsh p : vec3 p -> vec3 (vsh o p).
+Proof.
+  intros [S L]. split; [exact S|]. unfold vsh. cbn [dat]. rewrite zipw_length_min, L. reflexivity.
+Qed.
+
+Lemma amap2_sub_vsh3 p q : vec3 p -> amap2 (@nsub R NumR) (vsh o p) q = vsh o (amap2 (@nsub R NumR) p q).
+Proof.
+  intros [S L]. unfold amap2, vsh. cbn [shape dat nsub NumR]. f_equal. apply zipw_sub_plus. rewrite L. reflexivity.
+Qed.
+
+Lemma interp3_shift g p : shape g = [nz; nx; ny] -> vec3 p ->
+  Interp3d.interp3d_1 z' x' y' g (vsh o p) nnan = Interp3d.interp3d_1 z x y g p nnan.
+Proof.
+  intros Sg Hp. unfold Interp3d.interp3d_1. destruct (get_vsh3 p Hp) as (-> & -> & ->).
+  apply (interp3d_translate a b c z x y g nz nx ny); assumption.
+Qed.
+
+Lemma g3n_shift p : vec3 p -> g3n z' x' y' zgrad xgrad ygrad (vsh o p) = g3n z x y zgrad xgrad ygrad p.
+Proof. intros Hp. unfold g3n, g3z, g3x, g3y. rewrite !interp3_shift by assumption. reflexivity. Qed.
+
+Lemma ndelta3_shift s d p : vec3 p ->
+  ndelta3 z' x' y' zgrad xgrad ygrad s d (vsh o p) = ndelta3 z x y zgrad xgrad ygrad s d p.
+Proof.
+  intros Hp. unfold ndelta3. rewrite g3n_shift by exact Hp. unfold g3z, g3x, g3y.
+  rewrite !interp3_shift by assumption. reflexivity.
+Qed.
+
+Lemma len3_ndelta3 s d p : length (dat d) = 3%nat -> length (dat (ndelta3 z x y zgrad xgrad ygrad s d p)) = 3%nat.
+Proof. intros Hd. unfold ndelta3. apply len3_set, len3_set, len3_set, Hd. Qed.
+
+Lemma clamp3_shift p1 : vec3 p1 -> clamp3 z' x' y' (vsh o p1) = vsh o (clamp3 z x y p1).
+Proof.
+  intros Hp. unfold clamp3. cbv zeta.
+  destruct (get_vsh3 p1 Hp) as (G0 & _ & _). rewrite G0, (clamp_shift a z nz Az).
+  destruct (set_vsh3 p1 (clamp z (get r0 p1 [0%Z])) Hp) as (-> & _ & _).
+  set (p2 := set p1 [0%Z] (clamp z (get r0 p1 [0%Z]))).
+  assert (Hp2 : vec3 p2) by (apply vec3_set; exact Hp).
+  destruct (get_vsh3 p2 Hp2) as (_ & G1 & _). rewrite G1, (clamp_shift b x nx Ax).
+  destruct (set_vsh3 p2 (clamp x (get r0 p2 [1%Z])) Hp2) as (_ & -> & _).
+  set (p3 := set p2 [1%Z] (clamp x (get r0 p2 [1%Z]))).
+  assert (Hp3 : vec3 p3) by (apply vec3_set; exact Hp2).
+  destruct (get_vsh3 p3 Hp3) as (_ & _ & G2). rewrite G2, (clamp_shift c y ny Ay).
+  destruct (set_vsh3 p3 (clamp y (get r0 p3 [2%Z])) Hp3) as (_ & _ & ->). reflexivity.
+Qed.
+
+Lemma vec3_clamp3 (u v w p1 : arr R) : vec3 p1 -> vec3 (clamp3 u v w p1).
+Proof. intros Hp. unfold clamp3. cbv zeta. apply vec3_set, vec3_set, vec3_set, Hp. Qed.
+
+Lemma vec3_magnet1 (l u p : arr R) ix : vec3 p -> vec3 (magnet1 l u ix p).
+Proof.
+  intros Hp. unfold magnet1.
+  repeat (match goal with |- context [if ?c then _ else _] => destruct c end); try apply vec3_set; exact Hp.
+Qed.
+
+Lemma magnet1_shift3 l u p ix : vec3 l -> vec3 u -> vec3 p -> (ix = 0 \/ ix = 1 \/ ix = 2)%Z ->
+  magnet1 (vsh o l) (vsh o u) ix (vsh o p) = vsh o (magnet1 l u ix p).
+Proof.
+  intros Hl Hu Hp Hix. unfold magnet1.
+  destruct (get_vsh3 p Hp) as (P0 & P1 & P2). destruct (get_vsh3 l Hl) as (L0 & L1 & L2).
+  destruct (get_vsh3 u Hu) as (U0 & U1 & U2).
+  destruct (set_vsh3 p (get r0 l [0%Z]) Hp) as (SL0 & _ & _). destruct (set_vsh3 p (get r0 l [1%Z]) Hp) as (_ & SL1 & _).
+  destruct (set_vsh3 p (get r0 l [2%Z]) Hp) as (_ & _ & SL2).
+  destruct (set_vsh3 p (get r0 u [0%Z]) Hp) as (SU0 & _ & _). destruct (set_vsh3 p (get r0 u [1%Z]) Hp) as (_ & SU1 & _).
+  destruct (set_vsh3 p (get r0 u [2%Z]) Hp) as (_ & _ & SU2).
+  destruct Hix as [-> | [-> | ->]].
+  - rewrite P0, L0, U0. cbn [nsub NumR].
+    replace (a + get r0 p [0%Z] - (a + get r0 l [0%Z])) with (get r0 p [0%Z] - get r0 l [0%Z]) by ring.
+    replace (a + get r0 p [0%Z] - (a + get r0 u [0%Z])) with (get r0 p [0%Z] - get r0 u [0%Z]) by ring.
+    destruct (nltb _ _); [exact SL0|]. destruct (nltb _ _); [exact SU0|reflexivity].
+  - rewrite P1, L1, U1. cbn [nsub NumR].
+    replace (b + get r0 p [1%Z] - (b + get r0 l [1%Z])) with (get r0 p [1%Z] - get r0 l [1%Z]) by ring.
+    replace (b + get r0 p [1%Z] - (b + get r0 u [1%Z])) with (get r0 p [1%Z] - get r0 u [1%Z]) by ring.
+    destruct (nltb _ _); [exact SL1|]. destruct (nltb _ _); [exact SU1|reflexivity].
+  - rewrite P2, L2, U2. cbn [nsub NumR].
+    replace (c + get r0 p [2%Z] - (c + get r0 l [2%Z])) with (get r0 p [2%Z] - get r0 l [2%Z]) by ring.
+    replace (c + get r0 p [2%Z] - (c + get r0 u [2%Z])) with (get r0 p [2%Z] - get r0 u [2%Z]) by ring.
+    destruct (nltb _ _); [exact SL2|]. destruct (nltb _ _); [exact SU2|reflexivity].
+Qed.
+
+Lemma magnet_shift3 l u p : vec3 l -> vec3 u -> vec3 p ->
+  magnet 3 (vsh o l) (vsh o u) (vsh o p) = vsh o (magnet 3 l u p) /\ vec3 (magnet 3 l u p).
+Proof.
+  intros Hl Hu Hp. unfold magnet. change (pyrange 0 3 1) with [0%Z; 1%Z; 2%Z]. unfold for_list. cbn [fold_left].
+  pose proof (vec3_magnet1 l u p 0 Hp) as H1. pose proof (vec3_magnet1 l u _ 1 H1) as H2.
+  split; [|apply vec3_magnet1; exact H2].
+  rewrite (magnet1_shift3 l u p 0) by auto. rewrite (magnet1_shift3 l u _ 1) by auto.
+  apply magnet1_shift3; auto.
+Qed.
+
+Lemma cells_lo3_shift l p : vec3 l -> vec3 p ->
+  cells_lo3 z' x' y' (vsh o l) (vsh o p) = vsh o (cells_lo3 z x y l p).
+Proof.
+  intros Hl Hp. unfold cells_lo3. destruct (get_vsh3 p Hp) as (-> & -> & ->).
+  rewrite (cell_lo_shift a z nz Az), (cell_lo_shift b x nx Ax), (cell_lo_shift c y ny Ay).
+  destruct (set_vsh3 l (cell_lo z (get r0 p [0%Z])) Hl) as (-> & _ & _).
+  destruct (set_vsh3 _ (cell_lo x (get r0 p [1%Z])) (vec3_set _ [0%Z] (cell_lo z (get r0 p [0%Z])) Hl)) as (_ & -> & _).
+  apply (set_vsh3 _ _ (vec3_set _ _ _ (vec3_set _ _ _ Hl))).
+Qed.
+Lemma cells_up3_shift u p : vec3 u -> vec3 p ->
+  cells_up3 z' x' y' (vsh o u) (vsh o p) = vsh o (cells_up3 z x y u p).
+Proof.
+  intros Hu Hp. unfold cells_up3. destruct (get_vsh3 p Hp) as (-> & -> & ->).
+  rewrite (cell_up_shift a z nz Az), (cell_up_shift b x nx Ax), (cell_up_shift c y ny Ay).
+  destruct (set_vsh3 u (cell_up z (get r0 p [0%Z])) Hu) as (-> & _ & _).
+  destruct (set_vsh3 _ (cell_up x (get r0 p [1%Z])) (vec3_set _ [0%Z] (cell_up z (get r0 p [0%Z])) Hu)) as (_ & -> & _).
+  apply (set_vsh3 _ _ (vec3_set _ _ _ (vec3_set _ _ _ Hu))).
+Qed.
+
+Lemma nfree_max3_shift s : nfree_max3 z' x' y' s = nfree_max3 z x y s.
+Proof.
+  pose proof (axis_n _ _ Az). pose proof (axis_n _ _ Ax). pose proof (axis_n _ _ Ay).
+  unfold nfree_max3. rewrite !shift_dim, (axis_dim _ _ Az), (axis_dim _ _ Ax), (axis_dim _ _ Ay). cbn [nofZ NumR].
+  rewrite (shift_get_le a z nz Az 0), (shift_get_le a z nz Az (nz - 1)),
+          (shift_get_le b x nx Ax 0), (shift_get_le b x nx Ax (nx - 1)),
+          (shift_get_le c y ny Ay 0), (shift_get_le c y ny Ay (ny - 1)) by lia.
+  rewrite dist3d_shift. reflexivity.
+Qed.
+End Shift3.
+
+Section Body3.
+Local Open Scope R_scope.
+Variables (a b c : R) (z x y zgrad xgrad ygrad : arr R) (nz nx ny : Z) (zsrc xsrc ysrc stepsize : R) (M : Z).
+Hypothesis Az : axis z nz.
+Hypothesis Ax : axis x nx.
+Hypothesis Ay : axis y ny.
+Hypothesis Sz : shape zgrad = [nz; nx; ny].
+Hypothesis Sx : shape xgrad = [nz; nx; ny].
+Hypothesis Sy : shape ygrad = [nz; nx; ny].
+Local Notation o := [a; b; c].
+Local Notation z' := (shift_axis a z).
+Local Notation x' := (shift_axis b x).
+Local Notation y' := (shift_axis c y).
+Local Notation r0 := (@nofZ R NumR 0%Z).
+Local Notation St := (@St2 R).
+
+Lemma tcond3_shift (s : St) : vec3 (s_pcur s) ->
+  tcond3 (a + zsrc) (b + xsrc) (c + ysrc) stepsize (SH o s) = tcond3 zsrc xsrc ysrc stepsize s.
+Proof.
+  intros Hp. unfold tcond3, SH. cbn [s_pcur fst snd].
+  destruct (get_vsh3 a b c _ Hp) as (-> & -> & ->). rewrite dist3d_shift. reflexivity.
+Qed.
+
+Lemma gbody3_shift hg (s : St) : InvS3 hg s -> RInv 3 M s ->
+  gbody3 z' x' y' zgrad xgrad ygrad (a + zsrc) (b + xsrc) (c + ysrc) stepsize M hg (SH o s) =
+  cmap (SH o) (gbody3 z x y zgrad xgrad ygrad zsrc xsrc ysrc stepsize M hg s).
+Proof.
+  intros (Hp & Hd & Hlu) (Hc & Sr & Lr).
+  destruct s as [[[[[[k d] l] n] p] r] u]. cbn [s_count s_delta s_lower s_nfree s_pcur s_ray s_upper fst snd] in *.
+  unfold gbody3, SH, btest. cbn [s_count s_delta s_lower s_nfree s_pcur s_ray s_upper fst snd].
+  rewrite (nfree_max3_shift a b c z x y nz nx ny Az Ax Ay).
+  destruct ((M <=? k)%Z || (nfree_max3 z x y stepsize <? n)%Z) eqn:Eb; [reflexivity|].
+  apply orb_false_elim in Eb. destruct Eb as [Eb _]. apply Z.leb_gt in Eb.
+  rewrite (g3n_shift a b c z x y zgrad xgrad ygrad nz nx ny Az Ax Ay Sz Sx Sy p Hp).
+  destruct (ngtb (g3n z x y zgrad xgrad ygrad p) r0); [|reflexivity].
+  rewrite (ndelta3_shift a b c z x y zgrad xgrad ygrad nz nx ny Az Ax Ay Sz Sx Sy stepsize d p Hp).
+  pose proof (len3_ndelta3 z x y zgrad xgrad ygrad stepsize d p Hd) as Hd'.
+  set (d' := ndelta3 z x y zgrad xgrad ygrad stepsize d p) in *. clearbody d'.
+  destruct hg.
+  - destruct (Hlu eq_refl) as [Hl Hu].
+    rewrite shrink_vsh by (first [apply Hp|apply Hl|apply Hu|exact Hd']).
+    set (fac := FteikCommon.shrink p d' l u). clearbody fac.
+    rewrite (amap2_sub_vsh3 a b c p _ Hp).
+    assert (Hp1 : vec3 (amap2 (@nsub R NumR) p (amap (fun e : R => nmul fac e) d'))).
+    { apply vec3_amap2; [exact Hp|apply len3_amap; exact Hd']. }
+    rewrite (clamp3_shift a b c z x y nz nx ny Az Ax Ay _ Hp1).
+    pose proof (vec3_clamp3 z x y _ Hp1) as Hp3.
+    set (p3 := clamp3 z x y (amap2 (@nsub R NumR) p (amap (fun e : R => nmul fac e) d'))) in *. clearbody p3.
+    destruct (nltb fac (nofZ 1)); [|reflexivity].
+    destruct (magnet_shift3 a b c l u p3 Hl Hu Hp3) as [Em Hp4]. rewrite Em.
+    set (p4 := magnet 3 l u p3) in *. clearbody p4.
+    destruct (get_vsh3 a b c p4 Hp4) as (-> & -> & ->).
+    rewrite !(cidx_shift a z), !(cidx_shift b x), !(cidx_shift c y).
+    rewrite (cells_lo3_shift a b c z x y nz nx ny Az Ax Ay l p4 Hl Hp4),
+            (cells_up3_shift a b c z x y nz nx ny Az Ax Ay u p4 Hu Hp4).
+    rewrite (set_sub_shray o M k r p4 Sr Lr Hc (or_introl Eb) (proj2 Hp4)).
+    destruct (_ && _); reflexivity.
+  - rewrite (amap2_sub_vsh3 a b c p _ Hp).
+    assert (Hp1 : vec3 (amap2 (@nsub R NumR) p d')) by (apply vec3_amap2; [exact Hp|exact Hd']).
+    rewrite (clamp3_shift a b c z x y nz nx ny Az Ax Ay _ Hp1).
+    pose proof (vec3_clamp3 z x y _ Hp1) as Hp3.
+    set (p3 := clamp3 z x y (amap2 (@nsub R NumR) p d')) in *. clearbody p3.
+    rewrite (set_sub_shray o M k r p3 Sr Lr Hc (or_introl Eb) (proj2 Hp3)).
+    reflexivity.
+Qed.
+End Body3.
+
+Section Inv3.
+Variables (z x y zgrad xgrad ygrad : arr R) (zsrc xsrc ysrc stepsize : R) (M : Z).
+Local Notation St := (@St2 R).
+
+Lemma gbody3_inv hg (s s' : St) : InvS3 hg s -> RInv 3 M s ->
+  (gbody3 z x y zgrad xgrad ygrad zsrc xsrc ysrc stepsize M hg s = Next s' \/
+   gbody3 z x y zgrad xgrad ygrad zsrc xsrc ysrc stepsize M hg s = Brk s') ->
+  InvS3 hg s' /\ RInv 3 M s'.
+Proof.
+  intros Hi Hr. pose proof Hi as (Hp & Hd & Hlu). pose proof Hr as (Hc & _).
+  destruct s as [[[[[[c d] l] n] p] r] u]. cbn [s_count s_delta s_lower s_nfree s_pcur s_ray s_upper fst snd] in *.
+  unfold gbody3. cbn [s_count s_delta s_lower s_nfree s_pcur s_ray s_upper fst snd].
+  destruct (btest _ _ _); [intros [E|E]; [discriminate|injection E as <-; split; assumption]|].
+  destruct (ngtb _ _); [|intros [E|E]; [discriminate|injection E as <-; split; assumption]].
+  pose proof (len3_ndelta3 z x y zgrad xgrad ygrad stepsize d p Hd) as Hd'.
+  set (d' := ndelta3 z x y zgrad xgrad ygrad stepsize d p) in *. clearbody d'.
+  destruct hg.
+  - destruct (Hlu eq_refl) as [Hl Hu].
+    set (fac := FteikCommon.shrink p d' l u). clearbody fac.
+    assert (Hp3 : vec3 (clamp3 z x y (amap2 (@nsub R NumR) p (amap (fun e : R => nmul fac e) d')))).
+    { apply vec3_clamp3, vec3_amap2; [exact Hp|apply len3_amap; exact Hd']. }
+    set (p3 := clamp3 z x y _) in *. clearbody p3.
+    destruct (nltb fac _).
+    + assert (Hp4 : vec3 (magnet 3 l u p3)).
+      { unfold magnet. apply vec3_for_list; [|exact Hp3]. intros ix q Hq. apply vec3_magnet1. exact Hq. }
+      set (p4 := magnet 3 l u p3) in *. clearbody p4.
+      assert (G : forall s0 : St, s0 = (c + 1, d', cells_lo3 z x y l p4, 0, p4, set_sub r [c] p4, cells_up3 z x y u p4) ->
+                  InvS3 true s0 /\ RInv 3 M s0).
+      { intros s0 ->. split.
+        - split; [exact Hp4|]. split; [exact Hd'|]. intros _.
+          split; [apply vec3_set, vec3_set, vec3_set, Hl|apply vec3_set, vec3_set, vec3_set, Hu].
+        - eapply RInv_store; [exact Hr|lia]. }
+      destruct (_ && _); intros [E|E]; try discriminate; injection E as <-; apply G; reflexivity.
+    + intros [E|E]; [|discriminate]. injection E as <-. split.
+      * split; [exact Hp3|]. split; [exact Hd'|]. intros _. split; assumption.
+      * eapply RInv_keep; [exact Hr|lia].
+  - assert (Hp3 : vec3 (clamp3 z x y (amap2 (@nsub R NumR) p d'))).
+    { apply vec3_clamp3, vec3_amap2; [exact Hp|exact Hd']. }
+    set (p3 := clamp3 z x y _) in *. clearbody p3.
+    intros [E|E]; [|discriminate]. injection E as <-. split.
+    + split; [exact Hp3|]. split; [exact Hd'|]. intros; discriminate.
+    + eapply RInv_store; [exact Hr|lia].
+Qed.
+End Inv3.
+
+(* ------------------------------------------------------------------------------------------ *)
+(* 9. (T3) the 3D core, (T4) the wrapper _ray3d and the entry point ray3d                       *)
+(* ------------------------------------------------------------------------------------------ *)
+Section Main3.
+Local Open Scope R_scope.
+Variables (a b c : R) (z x y zgrad xgrad ygrad : arr R) (nz nx ny : Z)
+          (zend xend yend zsrc xsrc ysrc stepsize : R) (M : Z) (hg : bool).
+Hypothesis Az : axis z nz.
+Hypothesis Ax : axis x nx.
+Hypothesis Ay : axis y ny.
+Hypothesis Sz : shape zgrad = [nz; nx; ny].
+Hypothesis Sx : shape xgrad = [nz; nx; ny].
+Hypothesis Sy : shape ygrad = [nz; nx; ny].
+Local Notation o := [a; b; c].
+Local Notation z' := (shift_axis a z).
+Local Notation x' := (shift_axis b x).
+Local Notation y' := (shift_axis c y).
+Local Notation r0 := (@nofZ R NumR 0%Z).
+Local Notation St := (@St2 R).
+Local Notation core fuel :=
+  (u_ray3d_core_v fuel z x y zgrad xgrad ygrad zend xend yend zsrc xsrc ysrc stepsize M hg).
+Local Notation core' fuel :=
+  (u_ray3d_core_v fuel z' x' y' zgrad xgrad ygrad (a + zend) (b + xend) (c + yend)
+                  (a + zsrc) (b + xsrc) (c + ysrc) stepsize M hg).
+
+Lemma hull3_shift : hull3 z' x' y' (a + zend) (b + xend) (c + yend) = hull3 z x y zend xend yend.
+Proof.
+  change (hull3 z' x' y' (a + zend) (b + xend) (c + yend))
+    with (inhullb z' (a + zend) && inhullb x' (b + xend) && inhullb y' (c + yend))%bool.
+  rewrite (inhullb_shift a z nz zend Az), (inhullb_shift b x nx xend Ax), (inhullb_shift c y ny yend Ay).
+  reflexivity.
+Qed.
+
+Lemma ginit3_shift :
+  ginit3 z' x' y' (a + zend) (b + xend) (c + yend) M hg = SH o (ginit3 z x y zend xend yend M hg).
+Proof.
+  unfold ginit3, SH. cbn [s_count s_delta s_lower s_nfree s_pcur s_ray s_upper fst snd].
+  rewrite (cell_lo_shift a z nz Az), (cell_lo_shift b x nx Ax), (cell_lo_shift c y ny Ay),
+          (cell_up_shift a z nz Az), (cell_up_shift b x nx Ax), (cell_up_shift c y ny Ay).
+  assert (Er : set_sub (full [M; 3%Z] r0) [0%Z] (of_list [a + zend; b + xend; c + yend]) =
+               shray o 1 (set_sub (full [M; 3%Z] r0) [0%Z] (of_list [zend; xend; yend]))).
+  { change (of_list [a + zend; b + xend; c + yend]) with (vsh o (of_list [zend; xend; yend])).
+    rewrite <- (shray_0 o (full [M; 3%Z] r0)) at 1.
+    apply (set_sub_shray o M 0); [reflexivity|apply (length_full2 M 3); lia|lia|lia|reflexivity]. }
+  rewrite Er. destruct hg; reflexivity.
+Qed.
+
+Lemma ginit3_inv : InvS3 hg (ginit3 z x y zend xend yend M hg) /\ RInv 3 M (ginit3 z x y zend xend yend M hg).
+Proof.
+  split.
+  - split; [apply vec3_of_list|]. split; [reflexivity|]. intros ->. split; apply vec3_of_list.
+  - apply (RInv_full 3 M (of_list [zend; xend; yend]) 1); [lia|reflexivity|reflexivity].
+Qed.
+
+Lemma loop3_shift fuel :
+  while_fuel fuel (tcond3 (a + zsrc) (b + xsrc) (c + ysrc) stepsize)
+             (gbody3 z' x' y' zgrad xgrad ygrad (a + zsrc) (b + xsrc) (c + ysrc) stepsize M hg)
+             (SH o (ginit3 z x y zend xend yend M hg)) =
+  rmap (SH o) (while_fuel fuel (tcond3 zsrc xsrc ysrc stepsize)
+                          (gbody3 z x y zgrad xgrad ygrad zsrc xsrc ysrc stepsize M hg)
+                          (ginit3 z x y zend xend yend M hg)) /\
+  (forall s1, while_fuel fuel (tcond3 zsrc xsrc ysrc stepsize)
+                         (gbody3 z x y zgrad xgrad ygrad zsrc xsrc ysrc stepsize M hg)
+                         (ginit3 z x y zend xend yend M hg) = Ok s1 -> InvS3 hg s1 /\ RInv 3 M s1).
+Proof.
+  apply (while_fuel_commute (SH o) (fun s => InvS3 hg s /\ RInv 3 M s)).
+  - intros s [Hi _]. apply tcond3_shift. apply Hi.
+  - intros s [Hi Hr] _.
+    apply (gbody3_shift a b c z x y zgrad xgrad ygrad nz nx ny zsrc xsrc ysrc stepsize M Az Ax Ay Sz Sx Sy hg s Hi Hr).
+  - intros s s' [Hi Hr] _ E. exact (gbody3_inv z x y zgrad xgrad ygrad zsrc xsrc ysrc stepsize M hg s s' Hi Hr E).
+  - exact ginit3_inv.
+Qed.
+
+Lemma core3_modular (zz xx yy : arr R) (ze xe ye zs xs ys : R) fuel : hull3 zz xx yy ze xe ye = true ->
+  u_ray3d_core_v fuel zz xx yy zgrad xgrad ygrad ze xe ye zs xs ys stepsize M hg =
+  rbind (while_fuel fuel (tcond3 zs xs ys stepsize) (gbody3 zz xx yy zgrad xgrad ygrad zs xs ys stepsize M hg)
+                    (ginit3 zz xx yy ze xe ye M hg))
+        (finG (nfree_max3 zz xx yy stepsize) (of_list [zs; xs; ys]) M).
+Proof.
+  intros Hh. rewrite (core3_eq zz xx yy zgrad xgrad ygrad ze xe ye zs xs ys stepsize hg M fuel Hh). unfold run.
+  rewrite (init3_spec zz xx yy zgrad xgrad ygrad ze xe ye zs xs ys stepsize M hg).
+  rewrite (while_fuel_ext' _ (tcond3 zs xs ys stepsize) _ (gbody3 zz xx yy zgrad xgrad ygrad zs xs ys stepsize M hg)
+             (cond3_spec zz xx yy zgrad xgrad ygrad ze xe ye zs xs ys stepsize hg)
+             (body3_spec zz xx yy zgrad xgrad ygrad ze xe ye zs xs ys stepsize M hg)).
+  reflexivity.
+Qed.
+
+Theorem ray3d_core_translate fuel :
+  match core fuel with
+  | Ok (ray, k) =>
+      shape ray = [M; 3%Z] /\ length (dat ray) = (Z.to_nat M * 3)%nat /\
+      exists m, core' fuel = Ok (shray o m ray, k) /\ ((0 <= k)%Z -> m = (k + 1)%Z) /\ (k = (-1)%Z -> m = 0%Z)
+  | Raise e => core' fuel = Raise e
+  | OutOfFuel => core' fuel = OutOfFuel
+  end.
+Proof.
+  destruct (hull3 z x y zend xend yend) eqn:Hh.
+  - pose proof Hh as Hh'. rewrite <- hull3_shift in Hh'.
+    rewrite (core3_modular z x y zend xend yend zsrc xsrc ysrc fuel Hh), (core3_modular z' x' y' _ _ _ _ _ _ fuel Hh').
+    rewrite ginit3_shift. destruct (loop3_shift fuel) as [-> Hfin].
+    destruct (while_fuel fuel _ _ (ginit3 z x y zend xend yend M hg)) as [s1| |] eqn:Ew; cbn [rmap rbind]; try reflexivity.
+    destruct (Hfin s1 eq_refl) as [Hi (Hc & Sr & Lr)].
+    unfold finG. rewrite (nfree_max3_shift a b c z x y nz nx ny Az Ax Ay).
+    destruct s1 as [[[[[[k d] l] n] p] r] u]. unfold SH, btest.
+    cbn [s_count s_delta s_lower s_nfree s_pcur s_ray s_upper fst snd] in *.
+    destruct ((M <=? k)%Z || (nfree_max3 z x y stepsize <? n)%Z) eqn:Eb.
+    + split; [exact Sr|]. split; [exact Lr|]. exists k. split; [reflexivity|]. split; intros; lia.
+    + apply orb_false_elim in Eb. destruct Eb as [Eb _]. apply Z.leb_gt in Eb.
+      split; [exact Sr|]. split; [cbn [set_sub dat]; rewrite upd_block_length; exact Lr|].
+      exists (k + 1)%Z. split; [|split; intros; lia].
+      change (of_list [a + zsrc; b + xsrc; c + ysrc]) with (vsh o (of_list [zsrc; xsrc; ysrc])).
+      rewrite (set_sub_shray o M k r (of_list [zsrc; xsrc; ysrc]) Sr Lr Hc (or_introl Eb) eq_refl). reflexivity.
+  - pose proof Hh as Hh'. rewrite <- hull3_shift in Hh'.
+    rewrite (ray3d_core_outside z x y zgrad xgrad ygrad zend xend yend zsrc xsrc ysrc stepsize M hg Hh fuel).
+    rewrite (ray3d_core_outside z' x' y' zgrad xgrad ygrad _ _ _ _ _ _ stepsize M hg Hh' fuel).
+    split; [reflexivity|]. split; [apply (length_full2 M 3); lia|].
+    exists 0%Z. rewrite shray_0. split; [reflexivity|]. split; intros; lia.
+Qed.
+
+Corollary ray3d_core_translate_rows fuel ray k : core fuel = Ok (ray, k) ->
+  exists ray', core' fuel = Ok (ray', k) /\ shape ray' = shape ray /\ length (dat ray') = length (dat ray) /\
+    (forall i j, (0 <= i <= k)%Z -> (0 <= j < 3)%Z ->
+       get 0 ray' [i; j] = nth (Z.to_nat j) o 0 + get 0 ray [i; j]) /\
+    ((-1 <= k)%Z -> forall i j, (k < i < M)%Z -> (0 <= j < 3)%Z -> get 0 ray' [i; j] = get 0 ray [i; j]).
+Proof.
+  intros Hc. pose proof (ray3d_core_translate fuel) as Ht. rewrite Hc in Ht.
+  destruct Ht as (Sr & Lr & m & Hc' & Hk1 & Hk2).
+  destruct (ray3d_core_count_range _ _ _ _ _ _ _ _ _ _ _ _ _ _ _ _ _ _ Hc) as [Hrange _].
+  exists (shray o m ray). split; [exact Hc'|]. split; [reflexivity|]. split; [apply length_shray|]. split.
+  - intros i j Hi Hj. rewrite (get_shray o M m i j ray Sr Lr) by (simpl; lia).
+    rewrite Hk1 by lia. destruct (Z.ltb_spec i (k + 1)); [reflexivity|lia].
+  - intros Hge i j Hi Hj. rewrite (get_shray o M m i j ray Sr Lr) by (simpl; lia).
+    assert (Ek : m = (k + 1)%Z) by (destruct (Z.eq_dec k (-1)) as [->|]; [apply Hk2; reflexivity|apply Hk1; lia]).
+    rewrite Ek. destruct (Z.ltb_spec i (k + 1)); [lia|ring].
+Qed.
+Corollary ray3d_core_translate_fuel fuel : core fuel = OutOfFuel <-> core' fuel = OutOfFuel.
+Proof.
+  pose proof (ray3d_core_translate fuel) as Ht. destruct (core fuel) as [[ray k]|e|].
+  - destruct Ht as (_ & _ & m & -> & _). split; discriminate.
+  - rewrite Ht. split; discriminate.
+  - rewrite Ht. split; reflexivity.
+Qed.
+
+Local Notation single fuel :=
+  (u_ray3d_v fuel z x y zgrad xgrad ygrad zend xend yend zsrc xsrc ysrc stepsize M hg).
+Local Notation single' fuel :=
+  (u_ray3d_v fuel z' x' y' zgrad xgrad ygrad (a + zend) (b + xend) (c + yend)
+             (a + zsrc) (b + xsrc) (c + ysrc) stepsize M hg).
+
+Theorem ray3d_translate fuel :
+  match single fuel with
+  | Ok (ray, k) =>
+      (1 <= k < M)%Z /\ shape ray = [M; 3%Z] /\ length (dat ray) = (Z.to_nat M * 3)%nat /\
+      single' fuel = Ok (shray o (k + 1) ray, k)
+  | Raise e => single' fuel = Raise e
+  | OutOfFuel => single' fuel = OutOfFuel
+  end.
+Proof.
+  unfold u_ray3d_v. pose proof (ray3d_core_translate fuel) as Ht.
+  destruct (core fuel) as [[ray k]|e|] eqn:Hc; cbn [rbind fst snd].
+  - destruct Ht as (Sr & Lr & m & -> & Hk1 & Hk2). cbn [rbind fst snd].
+    destruct (ray3d_core_count_range _ _ _ _ _ _ _ _ _ _ _ _ _ _ _ _ _ _ Hc) as [Hrange _].
+    destruct (Z.eqb_spec k (-1)); [reflexivity|]. destruct (Z.eqb_spec k (-2)); [reflexivity|].
+    rewrite Hk1 by lia. split; [lia|]. split; [exact Sr|]. split; [exact Lr|reflexivity].
+  - rewrite Ht. reflexivity.
+  - rewrite Ht. reflexivity.
+Qed.
+End Main3.
+
+Theorem ray3d_1_translate (a b c : R) (z x y zgrad xgrad ygrad : arr R) (nz nx ny : Z) (p src : arr R)
+        (stepsize : R) (M : Z) (hg : bool) (fuel : nat) :
+  axis z nz -> axis x nx -> axis y ny ->
+  shape zgrad = [nz; nx; ny] -> shape xgrad = [nz; nx; ny] -> shape ygrad = [nz; nx; ny] -> vec3 p -> vec3 src ->
+  match ray3d_1 fuel z x y zgrad xgrad ygrad p src stepsize M hg with
+  | Ok r => ray3d_1 fuel (shift_axis a z) (shift_axis b x) (shift_axis c y) zgrad xgrad ygrad
+                    (vsh [a; b; c] p) (vsh [a; b; c] src) stepsize M hg = Ok (addvec [a; b; c] r)
+  | Raise e => ray3d_1 fuel (shift_axis a z) (shift_axis b x) (shift_axis c y) zgrad xgrad ygrad
+                       (vsh [a; b; c] p) (vsh [a; b; c] src) stepsize M hg = Raise e
+  | OutOfFuel => ray3d_1 fuel (shift_axis a z) (shift_axis b x) (shift_axis c y) zgrad xgrad ygrad
+                         (vsh [a; b; c] p) (vsh [a; b; c] src) stepsize M hg = OutOfFuel
+  end.
+Proof.
+  intros Az Ax Ay Sz Sx Sy Hp Hs. unfold ray3d_1.
+  destruct (get_vsh3 a b c p Hp) as (-> & -> & ->). destruct (get_vsh3 a b c src Hs) as (-> & -> & ->).
+  pose proof (ray3d_translate a b c z x y zgrad xgrad ygrad nz nx ny
+                (get (nofZ 0) p [0]) (get (nofZ 0) p [1]) (get (nofZ 0) p [2])
+                (get (nofZ 0) src [0]) (get (nofZ 0) src [1]) (get (nofZ 0) src [2]) stepsize M hg
+                Az Ax Ay Sz Sx Sy fuel) as Ht.
+  destruct (u_ray3d_v fuel z x y zgrad xgrad ygrad _ _ _ _ _ _ stepsize M hg) as [[ray k]|e|]; cbn [rbind].
+  - destruct Ht as (Hc & Sr & Lr & ->). cbn [rbind fst snd]. f_equal.
+    apply (rev_prefix_shray [a; b; c] M k ray Sr Lr). lia.
+  - rewrite Ht. reflexivity.
+  - rewrite Ht. reflexivity.
+Qed.
+
+Corollary ray3d_1_translate_vertices (a b c : R) (z x y zgrad xgrad ygrad : arr R) (nz nx ny : Z) (p src : arr R)
+          (stepsize : R) (M : Z) (hg : bool) (fuel : nat) (r : arr R) :
+  axis z nz -> axis x nx -> axis y ny ->
+  shape zgrad = [nz; nx; ny] -> shape xgrad = [nz; nx; ny] -> shape ygrad = [nz; nx; ny] -> vec3 p -> vec3 src ->
+  ray3d_1 fuel z x y zgrad xgrad ygrad p src stepsize M hg = Ok r ->
+  exists r', ray3d_1 fuel (shift_axis a z) (shift_axis b x) (shift_axis c y) zgrad xgrad ygrad
+                     (vsh [a; b; c] p) (vsh [a; b; c] src) stepsize M hg = Ok r' /\ shape r' = shape r /\
+    forall i, 0 <= i < dim r 0%nat ->
+      get (nofZ 0) r' [i; 0] = (a + get (nofZ 0%Z) r [i; 0%Z])%R /\
+      get (nofZ 0) r' [i; 1] = (b + get (nofZ 0%Z) r [i; 1%Z])%R /\
+      get (nofZ 0) r' [i; 2] = (c + get (nofZ 0%Z) r [i; 2%Z])%R.
+Proof.
+  intros Az Ax Ay Sz Sx Sy Hp Hs Hr.
+  pose proof (ray3d_1_translate a b c z x y zgrad xgrad ygrad nz nx ny p src stepsize M hg fuel
+                Az Ax Ay Sz Sx Sy Hp Hs) as Ht.
+  rewrite Hr in Ht. exists (addvec [a; b; c] r). split; [exact Ht|]. split; [reflexivity|].
+  unfold ray3d_1 in Hr.
+  pose proof (ray3d_translate a b c z x y zgrad xgrad ygrad nz nx ny
+                (get (nofZ 0) p [0]) (get (nofZ 0) p [1]) (get (nofZ 0) p [2])
+                (get (nofZ 0) src [0]) (get (nofZ 0) src [1]) (get (nofZ 0) src [2]) stepsize M hg
+                Az Ax Ay Sz Sx Sy fuel) as Hw.
+  destruct (u_ray3d_v fuel z x y zgrad xgrad ygrad _ _ _ _ _ _ stepsize M hg) as [[ray k]|e|];
+    cbn [rbind fst snd] in Hr; try discriminate.
+  injection Hr as <-. destruct Hw as (Hc & Sr & Lr & _).
+  destruct (length_rev_prefix [a; b; c] M k ray Sr Lr ltac:(lia)) as [Sp Lp].
+  rewrite (dim2_0 _ _ _ Sp). intros i Hi.
+  split; [|split];
+    [apply (get_addvec [a; b; c] (k + 1) i 0 _ Sp Lp)|apply (get_addvec [a; b; c] (k + 1) i 1 _ Sp Lp)
+    |apply (get_addvec [a; b; c] (k + 1) i 2 _ Sp Lp)]; simpl; lia.
+Qed.
+
+(* ------------------------------------------------------------------------------------------ *)
+(* 10. the hypotheses are satisfiable and the statements are not vacuous; the axes must not be  *)
+(*     empty                                                                                    *)
+(* ------------------------------------------------------------------------------------------ *)
+Section Examples.
+Local Open Scope R_scope.
+(* a grid (RayStep.exz = [0,2,3], exx = [0,1], unit gradient along z) on which a ray with three
+   vertices is returned: the run on the grid translated by ANY (a, b) returns the translated ray *)
+Example ray2d_translate_nonvacuous (a b : R) :
+  exists ray ray',
+    u_ray2d_core_v 11 RayStep.exz RayStep.exx RayStep.exg1 RayStep.exg0 3 0 (3/2) 0 1 10%Z false = Ok (ray, 2%Z) /\
+    u_ray2d_core_v 11 (shift_axis a RayStep.exz) (shift_axis b RayStep.exx) RayStep.exg1 RayStep.exg0
+                   (a + 3) (b + 0) (a + 3/2) (b + 0) 1 10%Z false = Ok (ray', 2%Z) /\
+    forall k, (0 <= k <= 2)%Z ->
+      get 0 ray' [k; 0%Z] = a + get 0 ray [k; 0%Z] /\ get 0 ray' [k; 1%Z] = b + get 0 ray [k; 1%Z].
+Proof.
+  destruct RayStep.free_ray_three_vertices_2d as [ray H].
+  destruct (ray2d_core_translate_rows a b RayStep.exz RayStep.exx RayStep.exg1 RayStep.exg0 3 2 3 0 (3/2) 0 1 10 false
+              RayStep.exz_axis RayStep.exx_axis eq_refl eq_refl 11%nat ray 2 H) as (ray' & H' & _ & _ & Hrows & _).
+  exists ray, ray'. split; [exact H|]. split; [exact H'|].
+  intros k Hk. split; [apply (Hrows k 0%Z)|apply (Hrows k 1%Z)]; lia.
+Qed.
+
+Example ray3d_translate_nonvacuous (a b c : R) :
+  exists ray ray',
+    u_ray3d_core_v 11 RayStep.exz RayStep.exx RayStep.exx RayStep.exh1 RayStep.exh0 RayStep.exh0
+                   3 0 0 (3/2) 0 0 1 10%Z false = Ok (ray, 2%Z) /\
+    u_ray3d_core_v 11 (shift_axis a RayStep.exz) (shift_axis b RayStep.exx) (shift_axis c RayStep.exx)
+                   RayStep.exh1 RayStep.exh0 RayStep.exh0
+                   (a + 3) (b + 0) (c + 0) (a + 3/2) (b + 0) (c + 0) 1 10%Z false = Ok (ray', 2%Z) /\
+    forall k, (0 <= k <= 2)%Z ->
+      get 0 ray' [k; 0%Z] = a + get 0 ray [k; 0%Z] /\ get 0 ray' [k; 1%Z] = b + get 0 ray [k; 1%Z] /\
+      get 0 ray' [k; 2%Z] = c + get 0 ray [k; 2%Z].
+Proof.
+  destruct RayStep.free_ray_three_vertices_3d as [ray H].
+  destruct (ray3d_core_translate_rows a b c RayStep.exz RayStep.exx RayStep.exx RayStep.exh1 RayStep.exh0 RayStep.exh0
+              3 2 2 3 0 0 (3/2) 0 0 1 10 false
+              RayStep.exz_axis RayStep.exx_axis RayStep.exx_axis eq_refl eq_refl eq_refl 11%nat ray 2 H)
+    as (ray' & H' & _ & _ & Hrows & _).
+  exists ray, ray'. split; [exact H|]. split; [exact H'|].
+  intros k Hk. split; [apply (Hrows k 0%Z)|split; [apply (Hrows k 1%Z)|apply (Hrows k 2%Z)]]; lia.
+Qed.
+
+(* the hypothesis on the axes cannot be dropped altogether: on an EMPTY z axis the model reads the
+   default 0 for z[0] and z[-1], the hull test is 0 <= zend <= 0 whatever the translation, and the
+   translated end point is rejected (count -1) although the original one is accepted *)
+Example translate_needs_nonempty_axis (g : arr R) (M : Z) (hg : bool) (fuel : nat) :
+  let z0 : arr R := mkarr [0%Z] [] in
+  (forall ray, u_ray2d_core_v fuel z0 RayStep.exx g g 0 0 0 0 1 M hg <> Ok (ray, (-1)%Z)) /\
+  u_ray2d_core_v fuel (shift_axis 1 z0) (shift_axis 0 RayStep.exx) g g (1 + 0) (0 + 0) (1 + 0) (0 + 0) 1 M hg
+  = Ok (full [M; 2%Z] 0, (-1)%Z).
+Proof.
+  intros z0. split.
+  - intros ray Hc.
+    assert (Hh : hull2 z0 RayStep.exx 0 0 = true).
+    { unfold hull2, z0, RayStep.exx, get, dim. cbn [shape dat nth flat flat_aux Z.to_nat nleb nofZ NumR].
+      rewrite !(proj2 (Rleb_true _ _)) by (simpl; lra). reflexivity. }
+    destruct (ray2d_raises_value_error_iff z0 RayStep.exx g g 0 0 0 0 1 M hg fuel) as [Ho|[Hv _]];
+      unfold u_ray2d_v in *; rewrite Hc in *; cbn [rbind fst snd Z.eqb] in *; [discriminate|].
+    specialize (Hv eq_refl). congruence.
+  - assert (Hh : hull2 (shift_axis 1 z0) (shift_axis 0 RayStep.exx) (1 + 0) (0 + 0) = false).
+    { unfold hull2, z0, RayStep.exx, shift_axis, amap, get, dim.
+      simpl. assert (E : Rleb (1 + 0) 0 = false) by (apply Rleb_false; lra). rewrite E, andb_false_r. reflexivity. }
+    exact (ray2d_core_outside (shift_axis 1 z0) (shift_axis 0 RayStep.exx) g g (1 + 0) (0 + 0) (1 + 0) (0 + 0) 1 M hg Hh fuel).
+Qed.
+End Examples.
+
+Print Assumptions ray2d_core_translate.
+Print Assumptions ray2d_core_translate_rows.
+Print Assumptions ray2d_core_translate_fuel.
+Print Assumptions ray2d_translate.
+Print Assumptions ray2d_1_translate.
+Print Assumptions ray2d_1_translate_vertices.
+Print Assumptions ray3d_core_translate.
+Print Assumptions ray3d_core_translate_rows.
+Print Assumptions ray3d_core_translate_fuel.
+Print Assumptions ray3d_translate.
+Print Assumptions ray3d_1_translate.
+Print Assumptions ray3d_1_translate_vertices.
+Print Assumptions shrink_vsh.
+Print Assumptions ray2d_translate_nonvacuous.
+Print Assumptions ray3d_translate_nonvacuous.
+Print Assumptions translate_needs_nonempty_axis.
